@@ -136,6 +136,140 @@ def monitor(o, het_names):
     return out
 
 
+# ------------------------------------------- spec judge on the implementation
+
+def _merged_with_dirs(cfg, here):
+    """{section: {key: (value, directory of the file in which it is written)}}
+    in the order the reader reads the files."""
+    import c14_cfg
+    merged = {}
+    files = [(here, cfg['main'])] + [(os.path.dirname(os.path.join(here, rel)), secs) for rel, secs in cfg.get('incs', [])]
+    for d, secs in files:
+        for n, opts in c14_cfg.merge_dups(secs):
+            tgt = merged.setdefault(n, {})
+            for k, v in opts:
+                tgt[k] = (v, d)
+    return merged
+
+
+class _Abstain(Exception):
+    pass
+
+
+def judge_expansions(cfg, here, o):
+    """The property, judged directly on the objects the real reader produced
+    (no model involved): for every process of every group made from program /
+    fcgi-program / eventlistener sections, name, command, directory and
+    environment must be the section's values with %(here)s = the directory of
+    the file in which the value is written, expanded with that process's own
+    process_num, and the environment must be the [supervisord] environment
+    overlaid by exactly that process's own environment string (nothing from
+    sibling processes).  Abstains (returns nothing for a group) whenever the
+    expected value is not computable by this small specification."""
+    from supervisor.datatypes import dict_of_key_value_pairs, list_of_strings
+    import c14_cfg
+    merged = _merged_with_dirs(cfg, here)
+    sup_env = dict(o.configroot.supervisord.environment)
+    host = c14_cfg.oracle_tables()['host']
+    base_env = dict(('ENV_' + k, v) for k, v in c14_cfg.ENV.items())
+    base_env.update(('ENV_' + k, v) for k, v in sup_env.items())
+
+    def val(sec, key, default=None):
+        if key not in merged[sec]:
+            return default
+        v, d = merged[sec][key]
+        if '%%(here)s' in v:
+            raise _Abstain()
+        return v.replace('%(here)s', d)
+
+    def fmt(s, ex):
+        try:
+            return s % ex
+        except Exception:
+            raise _Abstain()
+
+    def expected(sec, group_name):
+        pname = sec.split(':', 1)[1].strip()
+        ex = {'here': here, 'program_name': pname, 'host_node_name': host, 'group_name': group_name}
+        ex0 = dict(ex)
+        ex0.update(base_env)
+        try:
+            n = int(fmt(val(sec, 'numprocs', '1'), ex0))
+            start = int(fmt(val(sec, 'numprocs_start', '0'), ex0))
+        except ValueError:
+            raise _Abstain()
+        if n > 200:
+            raise _Abstain()
+        envs = val(sec, 'environment', '')
+        tmpl = val(sec, 'process_name', '%(program_name)s').strip()
+        out = []
+        for i in range(start, start + n):
+            ex.update({'process_num': i, 'numprocs': n})
+            ex.update(base_env)
+            try:
+                own = dict_of_key_value_pairs(fmt(envs, ex))
+            except ValueError:
+                raise _Abstain()
+            for k, v in own.items():
+                ex['ENV_%s' % k] = v
+            directory = val(sec, 'directory')
+            command = val(sec, 'command')
+            if command is None:
+                raise _Abstain()
+            env = dict(sup_env)
+            env.update(own)
+            out.append((fmt(tmpl, ex), fmt(command, ex), None if directory is None else fmt(directory, ex),
+                        tuple(sorted(env.items()))))
+        return out
+
+    problems = []
+    names = [g.name for g in o.process_group_configs]
+    for g in o.process_group_configs:
+        if names.count(g.name) != 1:
+            continue
+        try:
+            cands = [s for s in merged if ':' in s and s.split(':', 1)[1].strip() == g.name
+                     and s.split(':', 1)[0] in ('group', 'program', 'eventlistener', 'fcgi-program')]
+            hets = [s for s in cands if s.startswith('group:')]
+            if hets:
+                if len(hets) != 1:
+                    continue
+                progs = val(hets[0], 'programs', '')
+                if '%' in progs:
+                    continue
+                exp = []
+                for prog in list_of_strings(progs):
+                    sec = 'program:' + prog if ('program:' + prog) in merged else 'fcgi-program:' + prog
+                    if sec not in merged:
+                        raise _Abstain()
+                    exp += expected(sec, g.name)
+            else:
+                own = [s for s in cands if not s.startswith('group:')]
+                if len(own) != 1:
+                    continue
+                exp = expected(own[0], g.name)
+        except _Abstain:
+            continue
+        got = [(p.name, p.command, p.directory, tuple(sorted(p.environment.items()))) for p in g.process_configs]
+        if sorted(got, key=repr) != sorted(exp, key=repr):
+            want = dict((e[0], e) for e in exp)
+            for t in got:
+                w = want.get(t[0])
+                if w is not None and w != t:
+                    for fld, a, b in zip(('name', 'command', 'directory', 'environment'), w, t):
+                        if a != b:
+                            problems.append('group %r process %r: %s should be %r (own section values, %%(here)s = directory of '
+                                            'the defining file, [supervisord] environment overlaid by the process\'s own) but is %r'
+                                            % (g.name, t[0], fld, dict(a) if fld == 'environment' else a,
+                                               dict(b) if fld == 'environment' else b))
+                            break
+                    break
+            else:
+                problems.append('group %r: processes %r expected, %r found' % (g.name, sorted(e[0] for e in exp),
+                                                                           sorted(t[0] for t in got)))
+    return problems
+
+
 # ------------------------------------------------------------------ unit streams
 
 def expand_cases(chk):
@@ -392,6 +526,14 @@ def _run(chk, wd, proved):
                     clean(here)
                     return
                 accepted_sigs.update(sigs)
+            if not sigs:
+                probs = judge_expansions(cfg, here, o)
+                chk.dist('judged-on-implementation')
+                if probs:
+                    replay.update(kind='accepted configuration violates the property: ' + probs[0], problems=probs[:5])
+                    chk.violation(replay)
+                    clean(here)
+                    return
             for s in accepted_sigs:
                 known(s, label or stream)
             rej = [s for s in sigs if s in MODEL_REJECTS]
